@@ -43,7 +43,6 @@ Section ABF.
     c_nd : nat;                       (* number of variables *)
     c_lower : vec; c_width : vec; c_nx : list Z; c_periodic : list bool;   (* grid of samples/gradients *)
     c_full : Z; c_min : Z;            (* fullSamples, minSamples *)
-    c_apply : bool;                   (* applyBias   (f_cvb_apply_force) *)
     c_update : bool;                  (* updateBias  (f_cvb_history_dependent) *)
     c_cap : bool; c_maxf : vec;       (* maxForce given; its values *)
     c_szd : bool;                     (* stepZeroData (f_cvb_step_zero_data) *)
@@ -55,10 +54,6 @@ Section ABF.
     c_sfac : idx -> T                 (* scaledBiasingForceFactorsGrid: a grid with the geometry of the ABF grids *)
   }.
 
-  (* f_cv_apply_force of variable k: enabled (through require_feature_children(f_cvb_apply_force, ...)) when
-     a bias that applies forces uses the variable.  colvarmodule::update_colvar_forces calls
-     communicate_forces() only for such variables: otherwise colvar::f never reaches the atoms *)
-  Definition cvapply (c : abf_cfg) (k : nat) : bool := c_apply c || bget (c_other c) k.
 
   Record abf_state := mkSt {
     s_cnt : idx -> Z;                 (* samples   (colvar_grid_count) *)
@@ -79,8 +74,15 @@ Section ABF.
     i_e : vec;                        (* engine's own force on each variable at this configuration *)
     i_o : vec;                        (* force applied to each variable by the other biases at this step (read only when c_other) *)
     i_j : vec;                        (* Jacobian force fj of each variable at this configuration *)
-    i_boundary : bool                 (* this step repeats the previous one (new run statement) *)
+    i_boundary : bool;                (* this step repeats the previous one (new run statement) *)
+    i_apply : bool                    (* applyBias (f_cvb_apply_force) at this step: the configuration value, or what
+                                         `cv bias <name> set apply_force 0|1` left *)
   }.
+
+  (* f_cv_apply_force of variable k: enabled (through require_feature_children(f_cvb_apply_force, ...)) while
+     a bias that applies forces uses the variable.  colvarmodule::update_colvar_forces calls
+     communicate_forces() only for such variables: otherwise colvar::f never reaches the atoms *)
+  Definition cvapply (c : abf_cfg) (i : abf_in) (k : nat) : bool := i_apply i || bget (c_other c) k.
 
   Record abf_out := mkOut {
     o_bin : idx;                      (* bin of this step *)
@@ -152,17 +154,19 @@ Section ABF.
      otherwise only when step_relative > 0, from the forces the engine kept from the previous step.
      f_cv_total_force_calc is requested by the ABF bias when it is updated, or by subtractAppliedForce *)
   (* `ft += fj` unless hideJacobian and the compensating force -fj is not part of the measured force
-     (subtractAppliedForce removes it with the applied force; same-step total forces never contain it).
+     (subtractAppliedForce removes it with the applied force; same-step total forces never contain it;
+     a variable without f_cv_apply_force never applied it).
      In the lagged convention fj is still the one of the previous step (collect_cvc_total_forces runs
      before collect_cvc_Jacobians) *)
-  Definition addj (c : abf_cfg) (k : nat) : bool := negb (c_hidej c && (bget (c_subtract c) k || c_same_step c)).
+  Definition addj (c : abf_cfg) (i : abf_in) (k : nat) : bool :=
+    negb (c_hidej c && (bget (c_subtract c) k || c_same_step c || negb (cvapply c i k))).
   Definition st_ft0 (c : abf_cfg) (s : abf_state) (i : abf_in) : vec :=
     vbuild (c_nd c) (fun k =>
       if c_update c || bget (c_subtract c) k
       then (if c_same_step c
-            then (if addj c k then nadd O (vget (i_e i) k) (vget (i_j i) k) else vget (i_e i) k)
+            then (if addj c i k then nadd O (vget (i_e i) k) (vget (i_j i) k) else vget (i_e i) k)
             else if 0 <? fst (st_clk s i)
-                 then (if addj c k then nadd O (vget (s_eng s) k) (vget (s_fj s) k) else vget (s_eng s) k)
+                 then (if addj c i k then nadd O (vget (s_eng s) k) (vget (s_fj s) k) else vget (s_eng s) k)
                  else vget (s_ft s) k)
       else vget (s_ft s) k).
 
@@ -204,11 +208,11 @@ Section ABF.
     else s_sum s.
   (* part II *)
   Definition st_fabf (c : abf_cfg) (s : abf_state) (i : abf_in) : vec :=
-    if c_apply c && index_ok c (st_bin c i)
+    if i_apply i && index_ok c (st_bin c i)
     then calc_biasing_force c (st_cnt c s i) (st_sum c s i) (st_bin c i)
     else vzero (c_nd c).
-  (* colvar::update_forces_energy: f = fb = sum of the biases' forces, minus fj with hideJacobian;
-     end_of_step: f_old = f *)
+  (* colvar::update_forces_energy: f = fb = sum of the biases' forces, minus fj with hideJacobian when the
+     variable applies forces; end_of_step: f_old = f *)
   (* colvarbias::communicate_forces: the force handed to the variables is colvar_forces times the factor
      read from the scaling grid at the current bin (1 outside that grid or without scaledBiasingForce);
      it is recorded in previous_colvar_forces *)
@@ -219,13 +223,13 @@ Section ABF.
   Definition st_f (c : abf_cfg) (s : abf_state) (i : abf_in) : vec :=
     vbuild (c_nd c) (fun k =>
       let fb := nadd O (vget (st_fapp c s i) k) (oeff c i k) in
-      if c_hidej c then nsub O fb (vget (i_j i) k) else fb).
+      if c_hidej c && cvapply c i k then nsub O fb (vget (i_j i) k) else fb).
   Definition st_fold (c : abf_cfg) (s : abf_state) (i : abf_in) : vec :=
     vbuild (c_nd c) (fun k => if bget (c_subtract c) k then vget (st_f c s i) k else vget (s_fold s) k).
   (* colvar::communicate_forces hands f (times integer_power(value, 0) = 1) to the component, for the
      variables that have f_cv_apply_force.  engine: prev_total = eforce + force received from Colvars *)
   Definition st_eng (c : abf_cfg) (s : abf_state) (i : abf_in) : vec :=
-    vbuild (c_nd c) (fun k => if cvapply c k then nadd O (vget (i_e i) k) (vget (st_f c s i) k) else vget (i_e i) k).
+    vbuild (c_nd c) (fun k => if cvapply c i k then nadd O (vget (i_e i) k) (vget (st_f c s i) k) else vget (i_e i) k).
   (* colvar::collect_cvc_Jacobians *)
   Definition st_fj (c : abf_cfg) (i : abf_in) : vec := vbuild (c_nd c) (fun k => vget (i_j i) k).
 
@@ -248,6 +252,19 @@ Section ABF.
     end.
   Definition abf_run (c : abf_cfg) (h : list abf_in) := abf_run_from c (abf_init c) h.
 
+  (* inputPrefix: colvarbias_abf::read_gradients_samples adds the counts of the .count file to `samples` and,
+     for the .grad file, gradient * (count read) to `gradients` (colvar_grid_gradient::value_input with add).
+     One data set per prefix of the inputPrefix list, added in order. *)
+  Definition dataset := ((idx -> Z) * (idx -> vec))%type.
+  Definition abf_add_data (c : abf_cfg) (s : abf_state) (d : dataset) : abf_state :=
+    mkSt (fun b => s_cnt s b + fst d b)
+         (fun b => vbuild (c_nd c) (fun k => nadd O (vget (s_sum s b) k) (nmul O (vget (snd d b) k) (nofZ O (fst d b)))))
+         (s_bin s) (s_fbin s) (s_fabf s) (s_fprev s) (s_ft s) (s_fold s) (s_eng s) (s_fj s) (s_rel s) (s_started s).
+  Definition abf_init_data (c : abf_cfg) (l : list dataset) : abf_state :=
+    fold_left (abf_add_data c) l (abf_init c).
+  Definition abf_run_data (c : abf_cfg) (l : list dataset) (h : list abf_in) :=
+    abf_run_from c (abf_init_data c l) h.
+
   (* ------------------------------------------------------------------------------------------
      Specification: the attributed samples of a history.
      A trace is the history zipped with what Colvars applied at each step. *)
@@ -256,14 +273,14 @@ Section ABF.
   (* force exerted by the atoms on variable k at a step, as the engine measures it *)
   Definition measured (c : abf_cfg) (io : abf_in * abf_out) (k : nat) : T :=
     if c_same_step c then vget (i_e (fst io)) k      (* measured before Colvars adds its forces *)
-    else if cvapply c k then nadd O (vget (i_e (fst io)) k) (vget (o_f (snd io)) k)  (* engine force + every Colvars force of that step *)
+    else if cvapply c (fst io) k then nadd O (vget (i_e (fst io)) k) (vget (o_f (snd io)) k)  (* engine force + every Colvars force of that step *)
     else vget (i_e (fst io)) k.                      (* the variable hands no force to the atoms *)
   (* the part of it that Colvars itself was applying at that step and that the sample excludes:
      the ABF force (and, with hideJacobian, the compensating force -fj that the ABF bias asks the variable
      to apply); with subtractAppliedForce every force applied by Colvars to the variable *)
   Definition own (c : abf_cfg) (io : abf_in * abf_out) (k : nat) : T :=
     if c_same_step c then n0 O
-    else if negb (cvapply c k) then n0 O
+    else if negb (cvapply c (fst io) k) then n0 O
     else if bget (c_subtract c) k then vget (o_f (snd io)) k
     else if c_hidej c then nsub O (vget (o_fapp (snd io)) k) (vget (i_j (fst io)) k)
     else vget (o_fapp (snd io)) k.
@@ -308,5 +325,6 @@ Section ABF.
   Definition fsum_of (k : nat) (b : idx) (S : list (idx * vec)) : T :=
     gsum (map (fun v => vget v k) (samples_in b S)).
   (* the trace of a history: the history zipped with what the model reports at each step *)
-  Definition trace_of (c : abf_cfg) (h : list abf_in) : trace := combine h (snd (abf_run c h)).
+  Definition trace_from (c : abf_cfg) (s : abf_state) (h : list abf_in) : trace := combine h (snd (abf_run_from c s h)).
+  Definition trace_of (c : abf_cfg) (h : list abf_in) : trace := trace_from c (abf_init c) h.
 End ABF.
